@@ -104,7 +104,11 @@ func (w *world) observe(s snapshot, minAccepts int) (map[string]int, map[string]
 		conns := ls.Conns()[s[l]:]
 		acc[l] = len(conns)
 		for _, c := range conns {
-			c.Settle()
+			// the client side is gone by now, so the gateway closes this connection: what arrived before its end is all
+			// there is (a quiet moment alone proves nothing on a busy machine)
+			if !c.WaitEOF(3 * time.Second) {
+				c.Settle()
+			}
 			by[l] = append(by[l], c.Received()...)
 			c.Close()
 		}
